@@ -18,6 +18,7 @@ import (
 	"bytes"
 	"encoding/base64"
 	"encoding/binary"
+	"errors"
 	"io"
 	"net"
 	"net/netip"
@@ -587,6 +588,9 @@ type RDPCorrInfo struct {
 }
 
 func (i *RDPCorrInfo) FromBytes(src []byte) error {
+	if len(src) != int(RDPCorrInfoBytesTotal) {
+		return ErrIncorrectSourceBytesLength
+	}
 	return binary.Read(bytes.NewBuffer(src), RDPCorrInfoBytesOrder, i)
 }
 
@@ -604,6 +608,9 @@ type RDPNegReq struct {
 }
 
 func (r *RDPNegReq) FromBytes(src []byte) error {
+	if len(src) != int(RDPNegReqBytesTotal) {
+		return ErrIncorrectSourceBytesLength
+	}
 	return binary.Read(bytes.NewBuffer(src), RDPNegReqBytesOrder, r)
 }
 
@@ -693,6 +700,9 @@ type TPKTHeader struct {
 }
 
 func (h *TPKTHeader) FromBytes(src []byte) error {
+	if len(src) != int(TPKTHeaderBytesTotal) {
+		return ErrIncorrectSourceBytesLength
+	}
 	return binary.Read(bytes.NewBuffer(src), TPKTHeaderBytesOrder, h)
 }
 
@@ -711,6 +721,9 @@ type X224Crq struct {
 }
 
 func (x *X224Crq) FromBytes(src []byte) error {
+	if len(src) != int(X224CrqBytesTotal) {
+		return ErrIncorrectSourceBytesLength
+	}
 	return binary.Read(bytes.NewBuffer(src), X224CrqBytesOrder, x)
 }
 
@@ -809,6 +822,8 @@ const (
 
 // Variables specific to RDP Connection Request. Packet structure is described in the comments below.
 var (
+	ErrIncorrectSourceBytesLength = errors.New("incorrect source bytes length")
+
 	RDPCorrInfoBytesOrder = binary.LittleEndian
 	RDPNegReqBytesOrder   = binary.LittleEndian
 	RDPTokenBytesOrder    = binary.BigEndian
